@@ -3,6 +3,7 @@ import importlib
 import json
 import os
 import random
+import subprocess
 import sys
 import time
 
@@ -37,8 +38,14 @@ def evaluate(prop, cases, workdir, tag):
         c["id"] = i
         c.setdefault("include", None)
         c.setdefault("want_text", False)
-    results = run_driver([{k: c[k] for k in ("id", "wgsl", "include", "opts", "want_text")} for c in cases],
-                         workdir, tag)
+    try:
+        results = run_driver([{k: c[k] for k in ("id", "wgsl", "include", "opts", "want_text")} for c in cases],
+                             workdir, tag, timeout=getattr(prop, "DRIVER_TIMEOUT", 3000))
+    except subprocess.TimeoutExpired:
+        # the generator did not finish: every case of this batch is reported as failing its property
+        recs = [{"case": c, "res": {"parse_ok": True, "result": "timeout", "features": []},
+                 "verdict": ["true", "true", "false"], "skip": None} for c in cases]
+        return recs, []
     items, recs = [], []
     for c, r in zip(cases, results):
         rec = {"case": c, "res": r, "verdict": None, "skip": None}
@@ -118,10 +125,18 @@ def main(prop_name, tier, seed, replay=None):
     rng = random.Random(seed)
     if replay:
         rp = json.load(open(replay))
-        cases = [{"wgsl": rp["wgsl"], "include": rp.get("include"), "opts": rp["opts"], "family": "replay"}]
+        stage_lists = [[{"wgsl": rp["wgsl"], "include": rp.get("include"), "opts": rp["opts"], "family": "replay"}]]
+    elif hasattr(prop, "stages"):
+        stage_lists = prop.stages(rng, tier)
     else:
-        cases = prop.cases(rng, tier)
-    recs, errors = evaluate(prop, cases, workdir, "main")
+        stage_lists = [prop.cases(rng, tier)]
+    recs, errors = [], []
+    for si, cases in enumerate(stage_lists):
+        r, e = evaluate(prop, cases, workdir, "main%d" % si)
+        recs.extend(r)
+        errors.extend(e)
+        if classify(prop, r)[0]:
+            break   # a later stage only makes sense when the earlier one holds (e.g. deeper call chains)
     viol, disag, wfbad, broken, ok = classify(prop, recs)
 
     known = [k for k in load_known_findings() if k.get("property") == prop.ID and k.get("status") == "open"]
